@@ -54,7 +54,7 @@ def main():
         c = collections.Counter((v["p"], v["why"]) for v in viol)
         print("random=%d records=%d violations=%d" % (len(rnd), nrec, len(viol)))
         for k, n in c.most_common(20): print("  ", n, k)
-        acc, rej = engine.trace_conf(rnd, rcfg["cfg"], wd, name, 900)
+        acc, rej = engine.trace_conf(rnd, rcfg["cfg"], wd, name, 900, appname=g.get("subst", {}).get("AppRegs"))
         print("conf accepted=%d rejected=%d %s" % (len(acc), len(rej), rej[:3]))
         return
 
